@@ -1535,13 +1535,18 @@ func (g *pgProgGen) totalInt(e *pgGenv, param string, size int) *pgNode {
 func (g *pgProgGen) listToInt(e *pgGenv, size int) *pgNode {
 	p := g.split(size-2, 2)
 	l := g.expr(pgTList(pgTInt), e, p[0], false)
-	switch g.pick(4) {
+	switch g.pick(8) {
 	case 0:
 		return pgNMethod("method", l, "min")
 	case 1:
 		return pgNMethod("method", l, "max")
 	case 2:
 		return pgNMethod("method", l, "single")
+	case 3, 4, 5, 6:
+		// a list stage consumed at once
+		if !g.illTyped {
+			return pgNMethod("method", g.listStage(l, e, p[1]), g.oneOf([]string{"sum", "size", "first", "last"}))
+		}
 	}
 	ps := g.freshNames(e, 1)
 	be := e.enter(ps, []*pgTy{pgTInt})
@@ -1650,13 +1655,13 @@ func (g *pgProgGen) typed(t *pgTy, e *pgGenv, size int, allowLet bool) *pgNode {
 				init = g.binder(pgTInt, e, p[2])
 			}
 			return pgNMethod("method", l, "mapReduce", init, cb)
-		case c < 96:
+		case c < 94:
 			p := g.split(size-2, 2)
 			l := g.expr(pgTList(pgTInt), e, p[0], false)
 			ps := g.freshNames(e, 1)
 			cb := pgNClo(ps, g.expr(pgTBool, e.enter(ps, []*pgTy{pgTInt}), p[1], true))
 			return pgNMethod("method", l, "indexWhere", cb)
-		case c < 98:
+		case c < 99:
 			return g.listToInt(e, size)
 		default:
 			return pgNMethod("method", g.expr(pgTMap(pgField{"a", pgTInt}, pgField{"b", pgTInt}), e, size-1, false), "size")
@@ -1780,7 +1785,7 @@ func (g *pgProgGen) typed(t *pgTy, e *pgGenv, size int, allowLet bool) *pgNode {
 				l := g.expr(pgTList(pgTInt), e, p[0], false)
 				ps := g.freshNames(e, 1)
 				be := e.enter(ps, []*pgTy{pgTInt})
-				if g.chance(0.5) {
+				if g.chance(0.65) {
 					return g.listStage(l, e, p[1])
 				}
 				if g.chance(0.6) {
